@@ -354,9 +354,11 @@ pub fn parse_proj(definition: &str) -> Result<String, Error> {
             elements = elements
                 .iter()
                 .filter(|x| x.as_str() != "inv")
+                // The directional omissions change places when (and only
+                // when) the pipeline, and hence the direction, is inverted
                 .map(|x| match x.as_str() {
-                    "omit_fwd" => "omit_inv",
-                    "omit_inv" => "omit_fwd",
+                    "omit_fwd" if pipeline_is_inverted => "omit_inv",
+                    "omit_inv" if pipeline_is_inverted => "omit_fwd",
                     _ => x,
                 })
                 .map(|x| x.to_string())
